@@ -20,7 +20,7 @@ Definition p_op : parser op :=
   | 4 => pret (OpenFail p) | 5 => pret (DialFail p) | 6 => pret (HsIn p b) | 7 => pret (HsOut p b)
   | 8 => pret (Validate p b) | 9 => pret (Timer p) | 10 => pret (CmdOpen p) | 11 => pret (CmdClose p)
   | 12 => pret (CmdForce p) | 13 => pret (TaskDie p b) | 14 => pret (Release p) | 15 => pret (KillChan p)
-  | 16 => pret (Gate p)
+  | 16 => pret (Gate p) | 17 => pret (Notify p) | 18 => pret (NotifyDie p b)
   | _ => pfail
   end.
 
@@ -36,6 +36,7 @@ Definition enc_ev (e : uev) : list N :=
   | UOpened p d => [1; p; enc_dir d]
   | UClosed p => [2; p; 0]
   | UFail p e => [3; p; e]
+  | UNotif p => [4; p; 0]
   end.
 Definition enc_call (c : call) : list N :=
   match c with CDial p => [0; p; 0] | COpen p x => [1; p; x] | CForce p => [2; p; 0] end.
@@ -89,7 +90,7 @@ Definition p_ev : parser uev :=
   let* k := pN in let* p := pN in let* a := pN in
   match k with
   | 0 => pret (UValidate p) | 1 => pret (UOpened p (if a =? 0 then DIn else DOut))
-  | 2 => pret (UClosed p) | 3 => pret (UFail p a) | _ => pfail
+  | 2 => pret (UClosed p) | 3 => pret (UFail p a) | 4 => pret (UNotif p) | _ => pfail
   end.
 Definition p_call : parser call :=
   let* k := pN in let* p := pN in let* a := pN in
@@ -166,7 +167,7 @@ Definition pobs_eqb (a b : pobs) : bool :=
   Bool.eqb (o_hopen a) (o_hopen b) && Bool.eqb (o_hval a) (o_hval b).
 
 Definition ev_peer (e : uev) : peer :=
-  match e with UValidate p | UOpened p _ | UClosed p | UFail p _ => p end.
+  match e with UValidate p | UOpened p _ | UClosed p | UFail p _ | UNotif p => p end.
 Definition call_peer (c : call) : peer :=
   match c with CDial p | COpen p _ | CForce p => p end.
 
@@ -232,6 +233,10 @@ Fixpoint grammar (opened : peer -> bool) (gated : peer -> bool) (l : list uev) :
       | UFail p _ =>
           let '(o', f) := grammar opened gated t in
           (o', N.lor (if opened p then bad p else 0) f)
+      | UNotif p =>
+          (* notifications are delivered only between Opened and Closed *)
+          let '(o', f) := grammar opened gated t in
+          (o', N.lor (if opened p then 0 else bad p) f)
       | UValidate _ => grammar opened gated t
       end
   end.
@@ -246,7 +251,7 @@ Definition check_step (c : cfg) (m : omem) (o : op) (x : sobs) : omem * N :=
   let gated :=
     match o with
     | Gate q => upd (m_gated m) q true
-    | TaskDie q true => upd (m_gated m) q true
+    | TaskDie q true | NotifyDie q true => upd (m_gated m) q true
     | Release q => upd (m_gated m) q false
     | _ => m_gated m
     end in
